@@ -48,7 +48,8 @@ def genLeaf (cfg : Cfg) : Gen Leaf := do
     let r ← rand 40
     if r < 20 then pure .trueSet
     else if r < 27 then pure .emptySet
-    else if r < 34 then pure .other
+    else if r < 32 then pure .other
+    else if r < 34 then pure .func
     else if r < 39 then pure (.genericSet .proper)
     else if cfg.allowFail then pure .fails
     else pure .other
@@ -74,6 +75,29 @@ def genOffset : Gen Int := do
 def holesInside (xs : List Tree) (holes : List Bool) : List (Option Tree) :=
   let n := xs.length
   (xs.zip holes).zipIdx.map (fun ((t, h), i) => if h && i != 0 && i + 1 != n then none else some t)
+
+/-- values of different classes are different arr.ai values (arrays here are never empty) -/
+def treeClass : Tree → Nat
+  | .leaf .trueSet => 0
+  | .leaf .emptySet => 1
+  | .leaf (.genericSet _) => 2
+  | .leaf .other => 3
+  | .leaf .fails => 4
+  | .leaf .func => 8
+  | .tup _ => 5
+  | .arr _ _ => 6
+  | .dict _ => 7
+
+/-- a small tree of a class not in `used` (all leaves true when `cfg.allTrue`) -/
+def freshClass (cfg : Cfg) (used : List Nat) : Gen Tree := do
+  let lt := Tree.leaf .trueSet
+  let cands : List Tree :=
+    if cfg.allTrue then [.tup [], .arr 0 [some lt], lt, .dict [(.num 0, lt)], .tup [(s2n "a", lt)]]
+    else [.leaf .emptySet, lt, .leaf .other, .leaf (.genericSet .proper), .tup [], .arr 1 [some (.leaf .emptySet)],
+          .dict [(.num 0, .leaf .emptySet)]]
+  let k ← rand cands.length
+  let rot := cands.drop k ++ cands.take k
+  pure ((rot.find? (fun t => !used.contains (treeClass t))).getD (.tup []))
 
 def genTree (cfg : Cfg) : Nat → Gen Tree
   | 0 => do pure (.leaf (← genLeaf cfg))
@@ -102,7 +126,17 @@ def genTree (cfg : Cfg) : Nat → Gen Tree
       let ks := if ks.isEmpty then [Key.num 0] else ks
       let mut es := []
       for k in ks do
-        es := (k, ← genTree cfg d) :: es
+        -- a dictionary may hold several values under one key ({k: v} | {k: v'}): every (key, value) pair is
+        -- a member.  Values under one key are of pairwise different classes, hence different values.
+        let mut vals := [← genTree cfg d]
+        for _ in [0:2] do
+          if ← chance 1 4 then
+            let t ← genTree cfg d
+            let used := vals.map treeClass
+            let t ← if used.contains (treeClass t) then freshClass cfg used else pure t
+            vals := t :: vals
+        for v in vals.reverse do
+          es := (k, v) :: es
       pure (.dict es.reverse)
 
 /-! ## printing a tree as arr.ai source -/
@@ -114,7 +148,7 @@ def falseSpellings : List String :=
 def genericSpellings : List String :=
   ["{1, 2}", "{true}", "{false}", "{[true]}", "{{}, {()}}", "{3}"]
 def otherSpellings : List String :=
-  ["42", "0", "1", "-1.5", "'abc'", "'true'", "<<1, 2>>", "{(a: true)}", "{|a| (1), (2)}", "\\x x",
+  ["42", "0", "1", "-1.5", "'abc'", "'true'", "<<1, 2>>", "{(a: true)}", "{|a| (1), (2)}",
    "2\\'ab'", "{'a', 1}", "//math.pi", "{(a: 1), 2}"]
 def failSpellings : List String :=
   ["//test.assert.equal(1, 2)", "(\\x x.y)(1)", "(c: 1).d", "[1](5)", "nope", "//test.assert.true(false)"]
@@ -124,6 +158,7 @@ def printLeaf : Leaf → Gen String
   | .emptySet => pick falseSpellings
   | .genericSet _ => pick genericSpellings
   | .other => pick otherSpellings
+  | .func => pick ["\\x x", "\\x (a: x)", "\\x \\y x"]
   | .fails => pick failSpellings
 
 def isIdent (n : Name) : Bool :=
@@ -137,6 +172,34 @@ def keySrc : Key → String
   | .str s => "'" ++ n2s s ++ "'"
   | .other r => n2s r
 
+/-- first occurrence of every key / the remaining entries -/
+def splitLayer : List Key → List (Key × String) → List (Key × String) × List (Key × String)
+  | _, [] => ([], [])
+  | seen, (k, v) :: r =>
+    if seen.contains k then
+      let (a, b) := splitLayer seen r
+      (a, (k, v) :: b)
+    else
+      let (a, b) := splitLayer (k :: seen) r
+      ((k, v) :: a, b)
+
+def layersOf : Nat → List (Key × String) → List (List (Key × String))
+  | 0, _ => []
+  | _, [] => []
+  | n + 1, es =>
+    let (a, b) := splitLayer [] es
+    a :: layersOf n b
+
+/-- a dictionary as source: `{k: v, …}`, a union of such literals when a key has several values,
+or (asSet) the set of its `(@: k, @value: v)` members -/
+def dictSrc (es : List (Key × String)) (asSet : Bool) : String :=
+  if asSet then "{" ++ ", ".intercalate (es.map (fun (k, v) => "(@: " ++ keySrc k ++ ", @value: " ++ v ++ ")")) ++ "}"
+  else
+    let lit (l : List (Key × String)) := "{" ++ ", ".intercalate (l.map (fun (k, v) => keySrc k ++ ": " ++ v)) ++ "}"
+    match layersOf es.length es with
+    | [l] => lit l
+    | ls => "(" ++ " | ".intercalate (ls.map lit) ++ ")"
+
 mutual
 def printTree : Tree → Gen String
   | .leaf l => printLeaf l
@@ -149,7 +212,8 @@ def printTree : Tree → Gen String
     pure (if off = 0 then body else s!"{off}\\{body}")
   | .dict es => do
     let parts ← printEntries es
-    pure ("{" ++ ", ".intercalate parts ++ "}")
+    let asSet ← chance 1 6
+    pure (dictSrc parts asSet)
 def printAttrs : List (Name × Tree) → Gen (List String)
   | [] => pure []
   | (n, t) :: r => do
@@ -166,12 +230,12 @@ def printItems : List (Option Tree) → Gen (List String)
     let s ← printTree t
     let rest ← printItems r
     pure (s :: rest)
-def printEntries : List (Key × Tree) → Gen (List String)
+def printEntries : List (Key × Tree) → Gen (List (Key × String))
   | [] => pure []
   | (k, t) :: r => do
     let s ← printTree t
     let rest ← printEntries r
-    pure ((keySrc k ++ ": " ++ s) :: rest)
+    pure ((k, s) :: rest)
 end
 
 def brokenSources : List String := ["nope", "true true", "invalid arr.ai code", "$$$", "(a: true) b"]
@@ -283,19 +347,56 @@ def treeNamesOk : Option Tree → Bool
   | some t => Spec.namesOk t
   | none => true
 
+def isFuncLeaf : Tree → Bool
+  | .leaf .func => true
+  | _ => false
+def isDict : Tree → Bool
+  | .dict _ => true
+  | _ => false
+
+/-- some key of `es` holds both a function and a dictionary -/
+def funcAndDictUnderOneKey (es : List (Key × Tree)) : Bool :=
+  es.any (fun (k, v) => isFuncLeaf v && es.any (fun (k', v') => k == k' && isDict v'))
+
+mutual
+/-- class of KF-c20-func-beside-dict: somewhere a dictionary key holds a function and a dictionary -/
+def funcBesideDict : Tree → Bool
+  | .leaf _ => false
+  | .tup as => fbdAttrs as
+  | .arr _ items => fbdItems items
+  | .dict es => funcAndDictUnderOneKey es || fbdEntries es
+def fbdAttrs : List (Name × Tree) → Bool
+  | [] => false
+  | (_, t) :: r => funcBesideDict t || fbdAttrs r
+def fbdItems : List (Option Tree) → Bool
+  | [] => false
+  | none :: r => fbdItems r
+  | some t :: r => funcBesideDict t || fbdItems r
+def fbdEntries : List (Key × Tree) → Bool
+  | [] => false
+  | (_, t) :: r => funcBesideDict t || fbdEntries r
+end
+
 def classOf (w : World) (target : Name) : String :=
   match w.lstat (Impl.targetPath w target) with
   | none => "good"
   | some n =>
-    if (Impl.walk n (Impl.targetPath w target)).all (fun f => treeNamesOk f.content) then "good"
-    else "KF-c20-dotted-attr-name"
+    let files := Impl.walk n (Impl.targetPath w target)
+    if !files.all (fun f => treeNamesOk f.content) then "KF-c20-dotted-attr-name"
+    else if files.any (fun f => match f.content with | some t => funcBesideDict t | none => false) then
+      "KF-c20-func-beside-dict"
+    else "good"
 
 def mkCase (id stratum : String) (root : Node) (target : Name) (files : List String) : Case :=
   let w : World := { cwd := ['/'], lstat := lstatOf root }
   let m := obsRun (Impl.runTests w target)
   let s := obsRun (Spec.run w target)
   let kind := (s.splitOn "\n").headD "" |>.splitOn ":" |>.take 2 |> ":".intercalate
-  { id := id, cls := classOf w target, kind := "runtests", stratum := stratum ++ kind,
+  let multi := match w.lstat (Impl.targetPath w target) with
+    | some n => (Impl.walk n (Impl.targetPath w target)).any
+        (fun f => match f.content with | some t => !Spec.wf t | none => false)
+    | none => false
+  { id := id, cls := classOf w target, kind := "runtests", stratum := stratum ++ kind ++ (if multi then "+multikey" else ""),
     model := m, spec := s, payload := n2s target :: files }
 
 def genCase (idx : Nat) (thorough : Bool) : Gen Case := do
@@ -356,7 +457,15 @@ def corpus : List Case :=
     mk 7 (dir "t" [file "a_test.arrai" (.tup [([], .tup [(s2n "b", lt)]), (s2n "b", lf)])]) "/t",
     -- the target is a file / the empty path means the working directory
     mk 8 (dir "t" [file "a_test.arrai" lt, file "b_test.arrai" lf]) "/t/a_test.arrai",
-    mk 9 (dir "t" [file "a_test.arrai" (.tup [])]) "" ]
+    mk 9 (dir "t" [file "a_test.arrai" (.tup [])]) "",
+    -- seeded bug (round 2): members of a dictionary collected into a map keyed by path — the false value
+    -- under a key that also holds true disappeared: (cases: {'a': 1 = 1, 'b': 2 = 2} | {'b': 2 = 3})
+    mk 10 (dir "t" [file "a_test.arrai" (.tup [(s2n "cases",
+      .dict [(.str (s2n "a"), lt), (.str (s2n "b"), lt), (.str (s2n "b"), lf)])])]) "/t",
+    mk 11 (dir "t" [file "a_test.arrai" (.arr 0 [some (.dict [(.num 1, .tup []), (.num 1, .arr 0 [some lt]),
+      (.num 1, .dict [(.num 2, lt), (.num 2, .leaf .other)])])])]) "/t",
+    -- known finding: a function and a dictionary under one key (Dict.Equal asks the closure for its Count)
+    mk 12 (dir "t" [file "a_test.arrai" (.dict [(.num 1, .dict [(.num 2, lt)]), (.num 1, .leaf .func)])]) "/t" ]
 
 def gen (seed n : Nat) (thorough : Bool) : List Case := Id.run do
   let mut out := corpus.reverse
